@@ -127,8 +127,33 @@ func c02Termination(p *Prog, r *Report, fns []*ssa.Function) {
 			ks = append(ks, fnKey(f))
 		}
 		key := strings.Join(ks, ",")
-		seen[key] = true
 		e, ok := c02Recursion[key]
+		if !ok {
+			// the same recursion with its closure turned into a new helper (or a new helper turned into
+			// a closure): groups are matched by their functions that exist on the pinned tree; the
+			// witness is then checked on the group as it is now
+			anchors := func(names []string, fs []*ssa.Function) string {
+				var out []string
+				for i, n := range names {
+					if strings.Contains(n[strings.LastIndex(n, "/")+1:], "$") {
+						continue
+					}
+					if fs != nil && isNewFunc(fs[i]) {
+						continue
+					}
+					out = append(out, n)
+				}
+				return strings.Join(out, ",")
+			}
+			if mine := anchors(ks, g); mine != "" {
+				for k2, e2 := range c02Recursion {
+					if anchors(strings.Split(k2, ","), nil) == mine {
+						key, e, ok = k2, e2, true
+					}
+				}
+			}
+		}
+		seen[key] = true
 		if !ok {
 			r.Fail("D4-recursion", key, p.Pos(g[0].Pos()), "a recursive function (group) reachable from an extractor is not in the audited termination table: recursion that follows links or nesting taken from file content must be bounded (depth limit, visited set, or strictly smaller sub-document) — otherwise a crafted file overflows the stack and crashes the scan")
 			continue
@@ -292,7 +317,7 @@ func depthWitness(g []*ssa.Function) (bool, string) {
 						okAll = false
 					}
 					// bo.X is the depth of the caller: the parameter itself or the captured one
-					if !isParamValue(bo.X, prm) {
+					if !isParamValue(bo.X, prm) && !passedThrough(g, h, bo.X, f, prm) {
 						// inside a closure: a load of the captured variable bound to the parameter's cell
 						u, isU := bo.X.(*ssa.UnOp)
 						fv, isFV := ssa.Value(nil), false
@@ -311,6 +336,118 @@ func depthWitness(g []*ssa.Function) (bool, string) {
 		}
 	}
 	return false, "no integer parameter is both compared with a limit on entry and passed as parameter+1 by every recursive call"
+}
+
+// paramOfHelper: v is (a load of the spill of) a parameter of h; returns its index.
+func paramOfHelper(h *ssa.Function, v ssa.Value) int {
+	for i, q := range h.Params {
+		if isParamValue(v, q) {
+			return i
+		}
+	}
+	return -1
+}
+
+// passedThrough: v, inside helper h of the group, is a parameter of h, and every call of h from the
+// group passes there the parameter prm of f (the function whose recursion is being bounded): the
+// helper only carries the value from f to f's recursive call.
+func passedThrough(g []*ssa.Function, h *ssa.Function, v ssa.Value, f *ssa.Function, prm *ssa.Parameter) bool {
+	if h == f {
+		return false
+	}
+	qi := paramOfHelper(h, v)
+	if qi < 0 {
+		return false
+	}
+	n := 0
+	ok := true
+	for _, caller := range g {
+		forEachInstr(caller, func(_ *ssa.BasicBlock, _ int, in ssa.Instruction) {
+			c := callOf(in)
+			if c == nil || c.StaticCallee() == nil || unwrapOr(c.StaticCallee()) != h {
+				return
+			}
+			n++
+			if caller != f || qi >= len(c.Args) || !isParamValue(c.Args[qi], prm) {
+				ok = false
+			}
+		})
+	}
+	return ok && n > 0
+}
+
+// budgetThroughHelper: the recursive call of f sits in a helper h that receives the budget as a
+// parameter, passes it on, returns f's updated total, and f assigns what h returns back to the
+// variable it passed (so sibling archives share one budget).
+func budgetThroughHelper(g []*ssa.Function, h *ssa.Function, call *ssa.Call, pi int, f *ssa.Function, prm *ssa.Parameter) bool {
+	qi := paramOfHelper(h, call.Call.Args[pi])
+	if qi < 0 {
+		return false
+	}
+	// h returns the call's int64 result on the path after the call, its own parameter otherwise
+	ri := -1
+	for _, ret := range returnsOf(h) {
+		for k := range ret.Results {
+			if ex, ok := retVal(ret, k).(*ssa.Extract); ok && ex.Tuple == ssa.Value(call) {
+				if eb, ok := ex.Type().Underlying().(*types.Basic); ok && eb.Kind() == types.Int64 {
+					ri = k
+				}
+			}
+		}
+	}
+	if ri < 0 {
+		return false
+	}
+	for _, ret := range returnsOf(h) {
+		v := retVal(ret, ri)
+		okv := false
+		for _, l := range phiLeaves(v, ret.Block()) {
+			if ex, ok := l.val.(*ssa.Extract); ok && ex.Tuple == ssa.Value(call) {
+				okv = true
+			} else if paramOfHelper(h, l.val) == qi {
+				okv = true
+			} else {
+				return false
+			}
+		}
+		if !okv {
+			return false
+		}
+	}
+	// every call of h: from f, with the budget variable, and the result stored back into it
+	n := 0
+	ok := true
+	for _, caller := range g {
+		forEachInstr(caller, func(_ *ssa.BasicBlock, _ int, in ssa.Instruction) {
+			hc, isC := in.(*ssa.Call)
+			if !isC || hc.Call.StaticCallee() == nil || unwrapOr(hc.Call.StaticCallee()) != h {
+				return
+			}
+			n++
+			if caller != f || qi >= len(hc.Call.Args) {
+				ok = false
+				return
+			}
+			a := hc.Call.Args[qi]
+			if !isParamValue(a, prm) {
+				if _, isPhi := a.(*ssa.Phi); !isPhi {
+					ok = false
+					return
+				}
+			}
+			// the int64 result ri of this call must be used (flows on as the caller's budget)
+			used := false
+			for _, ref := range *hc.Referrers() {
+				if ex, isE := ref.(*ssa.Extract); isE && ex.Index == ri && len(*ex.Referrers()) > 0 {
+					used = true
+				}
+			}
+			if !used {
+				ok = false
+			}
+		})
+	}
+	return ok && n > 0
 }
 
 func unwrapOr(f *ssa.Function) *ssa.Function {
@@ -499,6 +636,9 @@ func budgetWitness(g []*ssa.Function) (bool, string) {
 						return
 					}
 					n++
+					if h != f && budgetThroughHelper(g, h, call, pi, f, prm) {
+						return
+					}
 					a, isU := call.Call.Args[pi].(*ssa.UnOp)
 					if !isU || a.Op != token.MUL {
 						okAll = false
